@@ -24,6 +24,7 @@ CONSTANTS
     Cbs,          \* dataset callbacks ("" = none)
     EffSets,      \* effect chains (sequences of effect ids) a dataset may have
     Caches,       \* cache kinds of datasets: "mem" (MemoryCache), "none" (NoCache)
+    CollKinds,    \* which collection constructors a coll node may use
     MinNodes,     \* calls are made on graphs of at least this many nodes (>= 1)
     BothPresets,  \* TRUE: a dataset may have pre-set AND default options at once
     Sharing,      \* TRUE: a node may be used by several parents (DAGs); FALSE: trees
@@ -88,8 +89,10 @@ Cands ==
           ELSE {})
     \cup (IF want = "coll"
           THEN {[k |-> "coll", c |-> c, ms |-> <<a, b>>, names |-> <<"x", "y">>] :
-                    c \in {"iter", "list", "tuple", "set", "dict"}, a \in Free, b \in Free}
-               \cup {[k |-> "coll", c |-> "list", ms |-> <<a>>, names |-> <<"x">>] : a \in Free}
+                    c \in CollKinds, a \in Free, b \in Free}
+               \cup {[k |-> "coll", c |-> c, ms |-> <<a>>, names |-> <<"x">>] : a \in Free, c \in CollKinds \cap {"list", "dict"}}
+               \cup {[k |-> "coll", c |-> "dict", ms |-> <<a, b, c3>>, names |-> <<"x", "y", "z">>] :
+                         a \in Free, b \in Free, c3 \in (IF "dict" \in CollKinds /\ Cardinality(CollKinds) = 1 THEN Free ELSE {})}
           ELSE {})
     \cup (IF want = "map"
           THEN {[k |-> "map", inner |-> i, its |-> <<[p |-> p, n |-> a]>>] : i \in Free, p \in MapPaths, a \in Free}
@@ -266,6 +269,8 @@ FC_Leaves == <<[p |-> pA, vals |-> {I(0), I(1), Str("x"), Lv(<<I(0), I(1)>>)}, e
                [p |-> <<"Z">>, vals |-> {I(7)}, extra |-> TRUE]>>
 
 \* family "presets" (C08): pre-set / default option wrappers and dataset options, nested
+AllColl == {"iter", "list", "tuple", "set", "dict"}
+DictOnly == {"dict"}
 NoCb == {""}
 NoEff == {<<>>}
 MemOnly == {"mem"}
@@ -286,6 +291,7 @@ FP_Leaves == <<[p |-> pA, vals |-> {I(0), I(1)}, extra |-> FALSE],
 \* family "caching" (C01, C02, C12, C16, C17): datasets / cached nodes over the combinators, DAGs
 FK_Kinds == {"val", "opt", "pred", "fnapp", "ds", "dsof", "cached", "switch", "case", "bind", "coalesce", "with", "coll", "map", "apply"}
 FK_Preds == {"eq"}
+FG_Kinds == {"val", "opt", "fnapp", "ds", "dsof", "cached", "switch", "coalesce", "with", "coll", "map", "apply"}
 FK_KindsB == {"opt", "fnapp", "ds", "cached", "with"}
 FK_Paths == {pA, pB, pSX, <<"S">>}
 FK_Consts == {I(1), Lv(<<I(0), I(1)>>)}
@@ -331,6 +337,16 @@ FD_Bodies == {"f", "h"}
 FD_Disp == <<I(1), Str("x")>>
 FD_Cbs == {"", "cb"}
 FD_Leaves == <<[p |-> <<"K">>, vals |-> {I(1), Str("x"), I(2)}, extra |-> FALSE]>>
+
+\* family "classes" (C19): dataset classes = named members (a dict collection in the machine)
+FL_Kinds == {"val", "opt", "fnapp", "ds", "coll"}
+FL_Paths == {pA, pSX, pSY}
+FL_Consts == {I(5)}
+FL_Bodies == {"f"}
+FL_Leaves == <<[p |-> pA, vals |-> {I(0), I(1)}, extra |-> FALSE],
+               [p |-> pSX, vals |-> {I(1), I(2)}, extra |-> FALSE],
+               [p |-> pSY, vals |-> {I(0), I(3)}, extra |-> FALSE],
+               [p |-> <<"Z">>, vals |-> {I(7), I(8)}, extra |-> TRUE]>>
 
 -----------------------------------------------------------------------------
 \* one self-contained CASE line per observation: the graph, the tables, the call and everything
